@@ -96,6 +96,7 @@ FIXED = [
     ("C12", "35564e0", "a RegExp created by one eval and used by a later eval on the same context was judged against the first eval's clock: spurious TimeLimitError"),
     ("C02", "094d6a2", "`[1].map(function g(x){return [1].map(g)})` and `function f(){ return f.call(null) } f()` ended in a Python RecursionError instead of MemoryLimitError: script code nested through natives was not counted against any budget"),
     ("C04", "5541b57", "`a.reduce(function(acc,x){a.pop();return acc+x})` (and reduceRight) let a raw IndexError escape: the loop bound was computed before the callbacks ran"),
+    ("C02", "3b8c2ec", "`for(i<200000){ try { for (k in o) { return k } } finally { continue } }` hit MemoryLimitError: the return kept the for-in iterator on the stack and the continue in the finally block dropped only the return value"),
 ]
 
 
